@@ -18,6 +18,7 @@ def run(ctx):
         "trailing-slash rule).")
     K = make_kinds(ctx.model)
     order.ord2(ctx, K)
+    order.flag_accumulates(ctx)
     order.ord1(ctx, K)
     order.em_norm(ctx)
     m = ctx.model
